@@ -6,7 +6,8 @@ list with the stack vocabulary of `Spec/SeqSpec.lean` (top = end of the list). -
 -- container: stack
 namespace CC.Driver.StackD
 open CC CC.Driver
-open CC.Driver.ArrayD (parseF32 defaultFactor effFactor growF exGeF predEven fmtLast fmtBool fmtOut fmtOut2 NSLOT growCheck absurdBegin absurdEnd)
+open CC.Driver.ArrayD (parseF32 defaultFactor effFactor growF exGeF predEven fmtLast fmtBool fmtOut fmtOut2 NSLOT growCheck absurdBegin absurdEnd
+  SSlot SpecSess finS roomFired roomSched nextCap)
 
 structure Sess where
   slots  : List (Option Stack) := [none, none, none, none]
@@ -19,6 +20,8 @@ structure Sess where
   blind  : Bool := false
   /-- `obs=sparse` was given on the constructor line: no content sweep except in `observe` -/
   sparse : Bool := false
+  /-- the independent spec pass (L1) -/
+  sp : SpecSess := {}
 
 def Sess.stk (s : Sess) (k : Nat) : Option Stack := (s.slots.getD k none)
 def Sess.lst (s : Sess) (k : Nat) : Option (List Nat) := (s.sslots.getD k none)
@@ -61,7 +64,133 @@ def confOf (c : Cmd) (isNew : Bool) : Nat × Float32 :=
   (if isNew then c.nat "cap" Gen.ARRAY_DEFAULT_CAPACITY else Gen.ARRAY_DEFAULT_CAPACITY,
    effFactor (match (if isNew then c.str "exp" else none) with | some e => parseF32 e | none => defaultFactor))
 
-def step (s : Sess) (c : Cmd) : Sess × String × String :=
+/-! ### the spec pass (L1): ideal lists with the stack vocabulary and, independently of the concrete
+model, the capacity of every stack (see `Driver/Array.lean`: `SSlot`, `roomFired`, `nextCap`).  Nothing
+here reads the model; the pass keeps running in sessions whose blocks the model pass cannot materialise. -/
+
+/-- `cc_stack_filter` on the ideal side: the result starts with the library's default capacity and
+factor and grows by pushes; the constructor makes three allocator requests, every growth step one; the
+first refused request (schedule position, or a request above 2^40 bytes) ends the call with
+`CC_ERR_ALLOC` after the predicate calls made so far.  Returns status, result slot, callback log. -/
+def specFilter (sl : SSlot) (sched : List Bool) : Stat × Option SSlot × List Nat :=
+  if sl.xs = [] then (.errOutOfRange, none, []) else
+  let ref (i : Nat) : Bool := !sl.libc && sched.getD i false
+  if ref 0 || ref 1 || ref 2 then (.errAlloc, none, []) else
+  let r := sl.xs.foldl (fun (acc : Option Stat × List Nat × List Nat × Nat × Nat) e =>
+    let (stop, log, out, cap, calls) := acc
+    match stop with
+    | some _ => acc
+    | none =>
+      let log := log ++ [e]
+      if !predEven e then (none, log, out, cap, calls) else
+      let (blk, cap', calls') := roomSched { xs := out, cap, f := defaultFactor, libc := sl.libc } out.length sched calls
+      match blk with
+      | some st => (some st, log, out, cap, calls')
+      | none => (none, log, out ++ [e], cap', calls'))
+    (none, [], [], Gen.ARRAY_DEFAULT_CAPACITY, 3)
+  match r.1 with
+  | some st => (st, none, r.2.1)
+  | none => (.ok, some { xs := r.2.2.1, cap := r.2.2.2.1, f := defaultFactor, libc := sl.libc }, r.2.1)
+
+def specStep (s : SpecSess) (c : Cmd) : SpecSess × String :=
+  let refused := c.fired > 0
+  let k := let k := c.nat "o" 0; if k < NSLOT then k else 0
+  let to := let t := c.nat "to" 1; if t < NSLOT then t else 1
+  let x := c.arg 0
+  let y := c.arg 1
+  let noout := c.nat "noout" 0 == 1 && ["pop", "it_replace", "zit_replace"].contains c.op
+  let fmtOut := fun (st : Stat) (o : Option Nat) => if noout then fmtStat st else CC.Driver.ArrayD.fmtOut st o
+  let fmtOut2 := fun (st : Stat) (o : Option (Nat × Nat)) => if noout then fmtStat st else CC.Driver.ArrayD.fmtOut2 st o
+  let build (isNew : Bool) : Stat × Option SSlot :=
+    let (cap, f) := confOf c isNew
+    let invalid := cap = 0 ∨ exGeF f (Gen.CC_MAX_ELEMENTS / cap) ∨ cap > Gen.CC_MAX_ELEMENTS / 8
+    let sst : Stat := if refused then .errAlloc else if invalid then .errInvalidCapacity else .ok
+    (sst, if sst = .ok then some { xs := [], cap, f, libc := !isNew } else none)
+  match c.op with
+  | "new" | "new_default" =>
+    let (sst, sl) := build (c.op == "new")
+    finS { slots := [sl, none, none, none], sparse := c.str "obs" == some "sparse" } (fmtStat sst)
+  | _ =>
+  if s.slots.all Option.isNone then (s, "S st=- nosession") else
+  let msg (t : String) := finS s s!"st=- {t}"
+  match c.op with
+  | "observe" => finS s "st=-" true
+  | "destroy" | "destroy_cb" =>
+    let log := (List.range NSLOT).foldl (fun acc j => match s.get j with | some sl => acc ++ sl.xs | none => acc) []
+    let s' := (List.range NSLOT).foldl (fun (acc : SpecSess) j => acc.drop j) s
+    if c.op == "destroy_cb" then finS s' s!"st=- cb={fmtList log}" else finS s' "st=-"
+  | "zit_new" =>
+    let p := c.nat "p" 1
+    if p ≥ NSLOT ∨ (s.get k).isNone ∨ (s.get p).isNone then finS { s with zit := none } "st=- noobj" else
+    finS { s with zit := some (k, p, 0, false) } "st=-"
+  | "zit_next" | "zit_replace" =>
+    match s.zit with
+    | some (k1, k2, pos, rm) =>
+      match s.get k1, s.get k2 with
+      | some s1, some s2 =>
+        if k1 = k2 then
+          if c.op == "zit_next" then
+            if pos ≥ s1.xs.length then finS s (fmtOut2 .iterEnd none)
+            else finS { s with zit := some (k1, k2, pos + 1, false) } (fmtOut2 .ok (some (s1.xs.getD pos 0, s1.xs.getD pos 0)))
+          else
+            if Spec.Seq.wdec pos ≥ s1.xs.length then finS s (fmtOut2 .errOutOfRange none) else
+            let r1 := Spec.Seq.replaceAt s1.xs x (Spec.Seq.wdec pos)
+            let r2 := Spec.Seq.replaceAt r1.2.2 y (Spec.Seq.wdec pos)
+            finS (s.set k1 (some { s1 with xs := r2.2.2 })) (fmtOut2 .ok (some (r1.2.1.getD 0, r2.2.1.getD 0)))
+        else
+        let zc : Spec.Seq.ZipCursor := { done1 := s1.xs.take pos, todo1 := s1.xs.drop pos, done2 := s2.xs.take pos,
+                                         todo2 := s2.xs.drop pos, removed := rm }
+        let put (s : SpecSess) (zc : Spec.Seq.ZipCursor) : SpecSess :=
+          { (s.set k1 (some { s1 with xs := zc.content1 })).set k2 (some { s2 with xs := zc.content2 }) with
+            zit := some (k1, k2, zc.done1.length, zc.removed) }
+        if c.op == "zit_next" then let (sst, so, zc') := zc.next; finS (put s zc') (fmtOut2 sst so)
+        else let (sst, so, zc') := zc.replace x y; finS (put s zc') (fmtOut2 sst so)
+      | _, _ => msg "noiter"
+    | none => msg "noiter"
+  | "it_new" =>
+    if (s.get k).isNone then finS { s with it := none } "st=- noobj" else finS { s with it := some (k, 0, false) } "st=-"
+  | "it_next" | "it_replace" =>
+    match s.it with
+    | some (k1, pos, rm) =>
+      match s.get k1 with
+      | some sl =>
+        let cur : Spec.Seq.Cursor := { done := sl.xs.take pos, todo := sl.xs.drop pos, removed := rm }
+        let put (s : SpecSess) (cu : Spec.Seq.Cursor) : SpecSess :=
+          { s.set k1 (some { sl with xs := cu.content }) with it := some (k1, cu.done.length, cu.removed) }
+        if c.op == "it_next" then let (sst, so, cu) := cur.next; finS (put s cu) (fmtOut sst so)
+        else let (sst, so, cu) := cur.replace x; finS (put s cu) (fmtOut sst so)
+      | none => msg "noiter"
+    | none => msg "noiter"
+  | "mk_new" | "mk_new_default" =>
+    if (s.get to).isSome then msg "slotbusy" else
+    let (sst, sl) := build (c.op == "mk_new")
+    finS (s.set to sl) (fmtStat sst)
+  | _ =>
+  match s.get k with
+  | some sl =>
+    let xs := sl.xs
+    let upd (xs' : List Nat) (hd : String) (cap : Nat := sl.cap) := finS (s.set k (some { sl with xs := xs', cap })) hd
+    match c.op with
+    | "drop" => finS (s.drop k) "st=-"
+    | "push" =>
+      let (blk, cap') := roomFired sl xs.length refused
+      match blk with
+      | some st => upd xs (fmtStat st)
+      | none => let (sst, xs') := Spec.Seq.push xs x; upd xs' (fmtStat sst) cap'
+    | "pop" => let (sst, so, xs') := Spec.Seq.pop xs; upd xs' (fmtOut sst so)
+    | "peek" => let (sst, so) := Spec.Seq.peek xs; upd xs (fmtOut sst so)
+    | "size" => finS s s!"st=- out={xs.length}"
+    | "map" => upd xs s!"st=- cb={fmtList (Spec.Seq.mapVisit xs)}"
+    | "filter_mut" => let (sst, xs') := Spec.Seq.filterMut predEven xs; upd xs' s!"{fmtStat sst} cb={fmtList xs.reverse}"
+    | "mk_filter" =>
+      if (s.get to).isSome ∨ to = k then msg "slotbusy" else
+      let (sst, r, log) := specFilter sl c.sched
+      finS (s.set to r) s!"{fmtStat sst} cb={fmtList log}"
+    | _ => msg "badop"
+  | none => msg "noobj"
+
+/-! ### the model pass (L3); the `S` line it computes from its shadow lists is discarded by `step` -/
+def stepM (s : Sess) (c : Cmd) : Sess × String × String :=
   let m := s.mem.begin c.sched
   let refused := c.fired > 0
   let k := let k := c.nat "o" 0; if k < NSLOT then k else 0
@@ -214,5 +343,12 @@ def step (s : Sess) (c : Cmd) : Sess × String × String :=
       fin { (s.setStk to r).setLst to sr with mem := m } s!"{fmtStat sst} cb={fmtList cbS}" s!"{fmtStat st} cb={fmtList log}"
     | _ => msg "badop"
   | _, _ => msg "noobj"
+
+/-- one line: the spec pass (S, L1) and the model pass (M, L3) side by side; the spec pass never sees the
+model and keeps running when the model pass has gone blind -/
+def step (s : Sess) (c : Cmd) : Sess × String × String :=
+  let (sp', lineS) := specStep s.sp c
+  let (s', _, lineM) := stepM s c
+  ({ s' with sp := sp' }, lineS, lineM)
 
 end CC.Driver.StackD
